@@ -2102,7 +2102,10 @@ impl<'de, 'e> de::Deserializer<'de> for YamlDeserializer<'de, 'e> {
                 where
                     Vv: de::DeserializeSeed<'de>,
                 {
-                    unreachable!("no values in empty map")
+                    // Asked for by a visitor that did not wait for a key (there is none).
+                    Err(Error::ValueRequestedBeforeKey {
+                        location: Location::UNKNOWN,
+                    })
                 }
             }
             return visitor.visit_map(EmptyMap);
